@@ -241,6 +241,13 @@ func (w *World) fetch(nd *Node, hash hotstuff.Hash) (*hotstuff.Block, bool) {
 			if lie := w.adv.onFetch(peer, nd, hash); lie != nil {
 				replies[uint32(peer.id)] = hotstuffpb.BlockToProto(lie)
 				w.fault("lying-fetch-reply")
+				if lie.Hash() == hash {
+					// a reply that passes the hash test: the liar answers first (the quorum function takes the first reply
+					// that matches, and is called as replies come in)
+					replies = map[uint32]*hotstuffpb.Block{uint32(peer.id): replies[uint32(peer.id)]}
+					w.fault("lying-fetch-reply-with-the-requested-hash")
+					break
+				}
 				continue
 			}
 		}
